@@ -12,6 +12,11 @@ func (LB) Error() string { return "the-msg" }
 func (LC) Error() string { return "the-msg" }
 func (LD) Error() string { return "the-msg" }
 
+// LP moved here from verifharness/migold (package name and type name unchanged).
+type LP struct{}
+
+func (LP) Error() string { return "the-msg" }
+
 // Wrapper types (pointer receivers).
 type WA struct{ C error }
 type WB struct{ C error }
